@@ -29,14 +29,23 @@ type rhRec struct {
 	FailStart bool  `json:"start_fails,omitempty"` // the directory is away during StartRecording
 }
 type rhInput struct {
-	Const bool    `json:"constant_recorder"`
+	Const bool `json:"constant_recorder"`
 	// device name of this many bytes is configured (0: the short default); above 255 the CPTV header
 	// cannot be written, so every StartRecording fails AFTER the temporary file has been created
 	NameLen int `json:"device_name_length,omitempty"`
-	Recs  []rhRec `json:"recordings"`
+	// one recording of 65600 frames (values j%60000+1), the next ([7 8 9]) started straight after it was stopped, then [11]
+	Long bool    `json:"long_recording_then_next,omitempty"`
+	Recs []rhRec `json:"recordings"`
 }
 
 func rhRun(in rhInput) (ok bool, why string, files int) {
+	if in.Long {
+		long := rhRec{Thresh: 2900}
+		for j := 0; j < 65600; j++ {
+			long.Frames = append(long.Frames, j%60000+1)
+		}
+		in.Recs = []rhRec{long, {Thresh: 3012, Frames: []int{7, 8, 9}}, {Thresh: 0, Frames: []int{11}}}
+	}
 	dir, _ := os.MkdirTemp(runDir(), "rechdr")
 	defer os.RemoveAll(dir)
 	out := filepath.Join(dir, "out")
@@ -171,18 +180,21 @@ func headTail(v []int) string {
 
 func init() {
 	runners["RECHDR"] = func(rng *rand.Rand, n int, tier string, emit func(Case)) {
+		var rin rhInput
+		if loadReplay(&rin) && (len(rin.Recs) > 0 || rin.Long) {
+			ok, why, files := rhRun(rin)
+			emit(Case{Coq: fmt.Sprintf("mkLag %s %d %d", coqBool(ok), 0, files), Input: rin,
+				Impl: map[string]interface{}{"ok": ok, "why": why, "files": files}, Nontriv: true, Key: "replay"})
+			return
+		}
 		for i := 0; i < n; i++ {
 			in := rhInput{Const: rng.Intn(3) == 0}
 			if i == 1 {
 				// one very long recording (more frames than a 16-bit counter holds, far more than a minute of them),
 				// the next one started straight after it was stopped: both must decode to exactly their frames
-				long := rhRec{Thresh: 2900}
-				for j := 0; j < 65600; j++ {
-					long.Frames = append(long.Frames, j%60000+1)
-				}
-				in.Recs = []rhRec{long, {Thresh: 3012, Frames: []int{7, 8, 9}}, {Thresh: 0, Frames: []int{11}}}
+				in.Long = true
 				ok, why, files := rhRun(in)
-				emit(Case{Coq: fmt.Sprintf("mkLag %s %d %d", coqBool(ok), 0, files), Input: map[string]interface{}{"constant_recorder": in.Const, "recordings": "65600 frames (values j%60000+1), then [7 8 9], then [11]"},
+				emit(Case{Coq: fmt.Sprintf("mkLag %s %d %d", coqBool(ok), 0, files), Input: in,
 					Impl: map[string]interface{}{"ok": ok, "why": why, "files": files},
 					Tags: []string{"long-recording-then-next", fmt.Sprintf("const=%v", in.Const)}, Nontriv: true, Key: fmt.Sprint("rechdr-long", in.Const)})
 				continue
